@@ -380,6 +380,55 @@ Proof.
     eapply step_inv; [exact V| exact Va'| eapply IH; [exact V| exact R1]| exact S].
 Qed.
 
+(* ---------- progress: the memoised closure never panics or gets stuck by itself ----------
+   (a panic can only come out of f; Unsup = the generator refuses Equal/Hash of the key type) *)
+Definition ok_or_unsup {A} (r : res A) : Prop := r = Unsup \/ exists a, r = Ok a.
+
+Lemma scan_progress k vs :
+  (forall e, In e vs -> ok_or_unsup (eqr (fst e) k)) -> ok_or_unsup (scan eqr k vs).
+Proof.
+  induction vs as [|[kin out] vs IH]; cbn; intros H; [right; eexists; reflexivity|].
+  destruct (H (kin, out) (or_introl eq_refl)) as [U|[b E]]; cbn in *.
+  - rewrite U. left; reflexivity.
+  - rewrite E. cbn. destruct b; [right; eexists; reflexivity|]. apply IH. intros e He. apply H. right; exact He.
+Qed.
+
+Lemma step_progress h st a :
+  (fm = FBuck -> forall b, valid b -> ok_or_unsup (hashr (keyof b))) ->
+  Forall valid h -> valid a -> Inv h st -> ok_or_unsup (step fm st a).
+Proof.
+  intros HT V Va (_ & TI & _).
+  assert (VR : forall s, In s (reps h) -> valid s).
+  { intros s Hs. apply reps_incl in Hs. rewrite Forall_forall in V. apply V; exact Hs. }
+  unfold Model.step, tbl_inv in *. destruct fm eqn:Fm.
+  - destruct (reps h) as [|s [|s2 r]]; try contradiction; rewrite TI; [|right; eexists; reflexivity].
+    cbn. right; eexists; reflexivity.
+  - rewrite TI. destruct (assoc eqq (keyof a) _); right; eexists; reflexivity.
+  - destruct TI as (m & -> & Bk).
+    destruct (HT eq_refl a Va) as [U|[hh E]]; [rewrite U; left; reflexivity|]. rewrite E. cbn.
+    assert (SP : ok_or_unsup (scan eqr (keyof a) (bucket hh m))).
+    { apply scan_progress. intros e He. rewrite Bk in He. apply in_map_iff in He as (s & <- & Hs).
+      apply filter_In in Hs as [Hs _]. cbn.
+      destruct (Heqr eq_refl s a (VR s Hs) Va) as [U|O]; [left; exact U| right; eexists; exact O]. }
+    destruct SP as [U|[found E2]]; [rewrite U; left; reflexivity|]. rewrite E2. cbn.
+    destruct found; right; eexists; reflexivity.
+Qed.
+
+Theorem run_progress h :
+  (fm = FBuck -> forall b, valid b -> ok_or_unsup (hashr (keyof b))) ->
+  Forall valid h -> ok_or_unsup (run_from fm (init fm) h).
+Proof.
+  intros HT. induction h as [|a h IH] using rev_ind; intros V.
+  - right. eexists. reflexivity.
+  - apply Forall_app in V as [V Va]. inversion Va as [|? ? Va' _]; subst.
+    rewrite run_snoc. destruct (IH V) as [U|[[st outs] E]].
+    + rewrite U. left; reflexivity.
+    + rewrite E. unfold Model.run_step. cbn.
+      destruct (step_progress h st a HT V Va' (run_inv h st outs V E)) as [U|[[st' o] E']].
+      * rewrite U. left; reflexivity.
+      * rewrite E'. right. eexists. reflexivity.
+Qed.
+
 (* ---------- how often the ideal memoiser invokes f ---------- *)
 Hypothesis Hsym : forall a b, valid a -> valid b -> keq a b = keq b a.
 Hypothesis Htrans : forall a b c, valid a -> valid b -> valid c -> keq a b = true -> keq b c = true -> keq a c = true.
